@@ -26,14 +26,14 @@ Proof. exact member_injective. Qed.
 
 Theorem C17_postfix_keys_disjoint_from_plain :
   forall b b' p, key b p <> base_name b' /\ key b p <> member b' None.
-Proof. intros b b' p. split; [apply key_not_plain | apply key_not_whole_member]. Qed.
+Proof. exact postfix_keys_disjoint. Qed.
 
 (* mutation "f{key}{postfix}" (no separator): still injective, but the postfix ".npy"
    IS the whole-file member name and the empty postfix IS the plain subscript *)
 Theorem C17_key_without_separator_refuted :
   (forall b b' p p', key_nosep b p = key_nosep b' p' -> b = b' /\ p = p') /\
   (forall b, key_nosep b ".npy" = member b None /\ key_nosep b "" = base_name b).
-Proof. split; [exact key_nosep_injective | exact key_nosep_collides]. Qed.
+Proof. exact key_without_separator. Qed.
 
 (* ---- save goes through exactly on consistent state ------------------------------ *)
 Theorem C17_save_succeeds_iff_wf :
@@ -50,11 +50,7 @@ Theorem C17_save_load_whole :
   let fs' := fst (save npy m fn None fs) in
   from_file unnpy fn None fs' = Ok m /\
   (forall t, load unnpy true t fn None fs' = Ok m).
-Proof.
-  intros X blob npy unnpy H fn m fs Hfn Hwf.
-  destruct (history_roundtrip npy unnpy H fn None m [] [] fs Hfn Hwf (Forall_nil _)) as (A & _ & B).
-  split; assumption.
-Qed.
+Proof. intros X blob npy unnpy H fn. exact (save_load_one npy unnpy H fn None). Qed.
 
 (* under any postfix, appended to ANY existing archive *)
 Theorem C17_save_load_postfix :
@@ -64,11 +60,7 @@ Theorem C17_save_load_postfix :
   let fs' := fst (save npy m fn (Some p) fs) in
   from_file unnpy fn (Some p) fs' = Ok m /\
   (forall t, load unnpy true t fn (Some p) fs' = Ok m).
-Proof.
-  intros X blob npy unnpy H fn p m fs Hfn Hwf.
-  destruct (history_roundtrip npy unnpy H fn (Some p) m [] [] fs Hfn Hwf (Forall_nil _)) as (A & _ & B).
-  split; assumption.
-Qed.
+Proof. intros X blob npy unnpy H fn p. exact (save_load_one npy unnpy H fn (Some p)). Qed.
 
 (* the former load (sets_n = false: n_grains of the target left alone) restores
    everything but the grain count ... *)
@@ -80,12 +72,7 @@ Theorem C17_load_without_grain_count_partial :
     phase r = phase m /\ fabric r = fabric m /\ regime r = regime m /\
     fractions r = fractions m /\ orientations r = orientations m /\
     n_grains r = n_grains t /\ (n_grains t = n_grains m -> r = m).
-Proof.
-  intros X blob npy unnpy H fn pf m t fs Hfn Hwf.
-  destruct (history_roundtrip npy unnpy H fn pf m [] [] fs Hfn Hwf (Forall_nil _)) as (_ & B & _).
-  exists (set_n (n_grains t) m). split; [apply B|]. repeat split.
-  intros E. rewrite E. apply set_n_same.
-Qed.
+Proof. intros X blob npy unnpy H. exact (load_without_grain_count npy unnpy H). Qed.
 
 (* ... and that breaks the property (finding fixed in /repo 3f474d8; the variant is the
    mutation "drop self.n_grains = ..."): with another grain count in the target it
@@ -120,11 +107,7 @@ Theorem C17_history_roundtrip :
   let fs' := save_all npy fn (l1 ++ (pf, m) :: l2) fs in
   from_file unnpy fn pf fs' = Ok m /\
   (forall t, load unnpy true t fn pf fs' = Ok m).
-Proof.
-  intros X blob npy unnpy H fn pf m l1 l2 fs Hfn Hwf Hl.
-  destruct (history_roundtrip npy unnpy H fn pf m l1 l2 fs Hfn Hwf Hl) as (A & _ & B).
-  split; assumption.
-Qed.
+Proof. intros X blob npy unnpy H. exact (history_roundtrip_cur npy unnpy H). Qed.
 
 (* any list of postfix saves with pairwise distinct postfixes, any length, any order *)
 Theorem C17_many_saves :
@@ -184,7 +167,7 @@ Theorem C17_npy_alias_witness :
   (let fs := fst (save wnpy w_t1 "a.npz" (Some "x") (fst (save wnpy w_m2 "a.npz" (Some "x.npy") []))) in
    from_file wunnpy "a.npz" (Some "x") fs = Ok w_t1 /\
    from_file wunnpy "a.npz" (Some "x.npy") fs = Ok w_m2).
-Proof. split; [exact npy_alias_witness | exact npy_alias_harmless]. Qed.
+Proof. exact npy_alias_both. Qed.
 
 (* save does not test the suffix: whole-file save to "a" writes "a.npz", postfix save
    to "a.dat" writes "a.dat" which the loaders refuse *)
@@ -199,7 +182,4 @@ Proof. exact save_name_witness. Qed.
    ".npz" names exist *)
 Example C17_nonvacuous :
   wf w_m2 /\ RT wnpy wunnpy /\ ends_with ".npz" "a.npz" = true /\ NoDup (map fst [("x", w_m2); ("x_y", w_t1)]).
-Proof.
-  split; [exact w_m2_wf|]. split; [intros a; reflexivity|]. split; [reflexivity|].
-  repeat constructor; cbn; intuition discriminate.
-Qed.
+Proof. exact C17_nonvacuous_proof. Qed.
